@@ -143,10 +143,10 @@ Require Gengo.Model.Pipeline Gengo.Model.Whole Gengo.Model.WholeDet Gengo.Proofs
   Gengo.Model.Dispatch Gengo.Props.Whole.
 
 Theorem C04_whole_determinism_is_pipeline :
-  forall fmt G (o : oracle) a w,
+  forall fmt G (o : oracle) rank a w,
     Gengo.Proofs.WholeDet.world_wf w -> shuffles o -> WholeDet.natural o ->
     forall gens, NoDup (map Pipeline.g_name gens) -> forall s,
-    let E := Whole.whole_env fmt (WholeDet.order_of o) G in
+    let E := Whole.whole_env fmt (WholeDet.order_of o) rank G in
     match run true true (WholeDet.det_render fmt) WholeDet.det_parse_sum (WholeDet.only_gfs o) (WholeDet.det_args G a)
               (Pipeline.w_direct w) (WholeDet.det_world w) (map (WholeDet.det_gen w) gens) (WholeDet.det_fs s) with
     | None => Pipeline.exec_outcome E a w gens s <> Pipeline.Done
@@ -159,13 +159,14 @@ Proof. exact Gengo.Props.Whole.Whole_determinism_is_pipeline. Qed.
 Print Assumptions C04_whole_determinism_is_pipeline.
 
 (* C04_order_independent as a statement about Pipeline.exec: the files gengo leaves and the calls it makes do not
-   depend on the iteration order of the sync.Map of retained genfiles (the only order the pipeline model leaves open) *)
+   depend on the iteration orders of the sync.Map of retained genfiles and of the map of stale files (the two orders the
+   pipeline model leaves open) *)
 Theorem C04_whole_pipeline_order_independent :
-  forall fmt G (o1 o2 : oracle) a w gens s,
+  forall fmt G (o1 o2 : oracle) rank1 rank2 a w gens s,
     Gengo.Proofs.WholeDet.world_wf w -> shuffles o1 -> shuffles o2 -> WholeDet.natural o1 -> WholeDet.natural o2 ->
     NoDup (Dispatch.keys G) -> NoDup (map Pipeline.g_name gens) ->
-    let E1 := Whole.whole_env fmt (WholeDet.order_of o1) G in
-    let E2 := Whole.whole_env fmt (WholeDet.order_of o2) G in
+    let E1 := Whole.whole_env fmt (WholeDet.order_of o1) rank1 G in
+    let E2 := Whole.whole_env fmt (WholeDet.order_of o2) rank2 G in
     (Pipeline.exec_outcome E1 a w gens s = Pipeline.Done <-> Pipeline.exec_outcome E2 a w gens s = Pipeline.Done)
     /\ (Pipeline.exec_outcome E1 a w gens s = Pipeline.Done ->
         (forall q, Pipeline.fs_lookup q (Pipeline.exec_fs E1 a w gens s) = Pipeline.fs_lookup q (Pipeline.exec_fs E2 a w gens s))
